@@ -46,6 +46,8 @@ namespace C13
     typedef double DataType; typedef Index IndexType;
     Control::Domain::PartiDomainControl<DomainLevelType> domain(comm, true);
     domain.parse_args(args);
+    const bool use_splitter = args.check("splitter") >= 0;   // (the domain control supports kept base levels for single-layered hierarchies only)
+    if(use_splitter) domain.keep_base_levels();   // rank 0 keeps the unpartitioned levels: needed by the base splitter (join/split of distributed vectors)
     domain.set_desired_levels(args.query("level")->second);
     domain.create(args.query("mesh")->second);
     domain.add_trafo_mesh_part_charts();
@@ -61,6 +63,7 @@ namespace C13
       if((i + 1) < domain.size_physical()) system_levels.at(i)->assemble_transfer(*system_levels.at(i + 1), domain.at(i), domain.at(i + 1), cubature);
       else system_levels.at(i)->assemble_transfer(domain.at(i), domain.at(i + 1), cubature);
     }
+    if(use_splitter) system_levels.front()->assemble_base_splitter(domain.front());
     for(Index i(0); i < num_levels; ++i) system_levels.at(i)->assemble_laplace_matrix(domain.at(i)->domain_asm, domain.at(i)->space, cubature);
     for(Index i(0); i < num_levels; ++i) system_levels.at(i)->assemble_homogeneous_unit_filter(*domain.at(i), domain.at(i)->space);
 
@@ -100,6 +103,23 @@ namespace C13
       p0_dot = pa.dot(pb); p0_norm = pa.norm2(); p0_norm_async = pb.norm2_async().wait(); p0_max = pa.max_abs_element(); p0_dofs = p0gate.get_num_global_dofs();
     }
 
+    // base splitter: join the distributed type-1 vector into the undecomposed vector on the root, split it again;
+    // the joined vector is the undecomposed vector (same norm), the input must not change, split(join(v)) == v, a second join gives the same
+    double join_norm = 0.0, join_norm2 = 0.0, int_norm_after_join = 0.0, split_err = 0.0, aint_norm_after_join = 0.0;
+    if(use_splitter)
+    {
+      const auto& splitter = lvl.base_splitter_sys;
+      auto vec_base = splitter.join(vec_int);
+      double jn = splitter.is_root() ? double(vec_base.norm2()) : 0.0; comm.allreduce(&jn, &join_norm, std::size_t(1), Dist::op_max);
+      int_norm_after_join = vec_int.norm2();
+      lvl.matrix_sys.apply(vec_tmp, vec_int); aint_norm_after_join = vec_tmp.norm2();
+      GlobalSystemVector vec_sp = lvl.matrix_sys.create_vector_r(); vec_sp.format(-7.0);
+      splitter.split(vec_sp, vec_base);
+      vec_sp.axpy(vec_int, -1.0); split_err = vec_sp.max_abs_element();
+      auto vec_base2 = splitter.join(vec_int);
+      double jn2 = splitter.is_root() ? double(vec_base2.norm2()) : 0.0; comm.allreduce(&jn2, &join_norm2, std::size_t(1), Dist::op_max);
+    }
+
     lvl.filter_sys.filter_sol(vec_sol); lvl.filter_sys.filter_rhs(vec_rhs);
     const double rhs_norm = vec_rhs.norm2();
     String sname = args.check("solver") > 0 ? args.query("solver")->second.front() : String("jacobi");
@@ -131,9 +151,9 @@ namespace C13
     {
       std::printf("C13JSON {\"ranks\":%d,\"element\":\"%s\",\"num_dofs\":%llu,\"levels_physical\":%llu,\"levels_virtual\":%llu,\"status\":\"%s\",\"iters\":%d,"
         "\"rhs_norm_unfiltered\":%.17g,\"int_norm\":%.17g,\"dot_int_rhs\":%.17g,\"aint_norm\":%.17g,\"energy\":%.17g,\"maxabs\":%.17g,\"t0_norm\":%.17g,\"rhs_norm\":%.17g,"
-        "\"p0_dofs\":%llu,\"p0_dot\":%.17g,\"p0_norm\":%.17g,\"p0_norm_async\":%.17g,\"p0_max\":%.17g,\"def_init\":%.17g,\"def_final\":%.17g,\"true_res\":%.17g,\"sol_norm\":%.17g,\"h0_err\":%.17g,\"h1_err\":%.17g}\n",
+        "\"join_norm\":%.17g,\"join_norm2\":%.17g,\"int_norm_after_join\":%.17g,\"aint_norm_after_join\":%.17g,\"split_err\":%.17g,\"p0_dofs\":%llu,\"p0_dot\":%.17g,\"p0_norm\":%.17g,\"p0_norm_async\":%.17g,\"p0_max\":%.17g,\"def_init\":%.17g,\"def_final\":%.17g,\"true_res\":%.17g,\"sol_norm\":%.17g,\"h0_err\":%.17g,\"h1_err\":%.17g}\n",
         comm.size(), ename, (unsigned long long)num_dofs, (unsigned long long)domain.size_physical(), (unsigned long long)domain.size_virtual(), stringify(result).c_str(), iters,
-        rhs_norm_unfiltered, int_norm, dot_int_rhs, aint_norm, energy, maxabs, t0_norm, rhs_norm, (unsigned long long)p0_dofs, p0_dot, p0_norm, p0_norm_async, p0_max, def_init, def_final, true_res, sol_norm, std::sqrt((double)errors.norm_h0_sqr), std::sqrt((double)errors.norm_h1_sqr));
+        rhs_norm_unfiltered, int_norm, dot_int_rhs, aint_norm, energy, maxabs, t0_norm, rhs_norm, join_norm, join_norm2, int_norm_after_join, aint_norm_after_join, split_err, (unsigned long long)p0_dofs, p0_dot, p0_norm, p0_norm_async, p0_max, def_init, def_final, true_res, sol_norm, std::sqrt((double)errors.norm_h0_sqr), std::sqrt((double)errors.norm_h1_sqr));
       std::printf("C13LEVELS desired [%s] chosen [%s]\n", domain.format_desired_levels().c_str(), domain.format_chosen_levels().c_str());
       std::printf("C13INFO %s\n", domain.get_chosen_parti_info().c_str());
       std::fflush(stdout);
@@ -146,7 +166,7 @@ namespace C13
     Dist::Comm comm(Dist::Comm::world());
     SimpleArgParser args(argc, argv);
     Control::Domain::add_supported_pdc_args(args);
-    args.support("mesh"); args.support("level"); args.support("shape"); args.support("space"); args.support("solver"); args.support("sync-seed"); args.support("delay-us");
+    args.support("mesh"); args.support("level"); args.support("shape"); args.support("space"); args.support("solver"); args.support("sync-seed"); args.support("splitter"); args.support("delay-us");
     g_rank = comm.rank();
     if(args.check("sync-seed") > 0) { args.parse("sync-seed", g_sync_seed); if(g_sync_seed != 0) FEAT::Verif::sync_order_hook = &order_hook; }
     if(args.check("delay-us") > 0) { unsigned long long d = 0; args.parse("delay-us", d); if(d > 0) std::this_thread::sleep_for(std::chrono::microseconds(mix(d ^ (unsigned long long)g_rank) % (d + 1))); }
